@@ -26,7 +26,7 @@ func init() {
 			StatesMean:  "distinct generated lines; transitions = ParseMarkup calls (plus Next calls for the runner part)",
 			Assumptions: []string{"constructions without a single meaning under the property are not checked: a self-closing marker between whitespace (one following space may be trimmed), a colon outside the prefix, leading whitespace before a prefix", "attributes of replacement markers themselves, attribute order and SourcePosition are not constrained here", "markers left open at the end of the line are C14/C15 material"},
 		},
-		QuickBudget: 70 * time.Second, ThoroughBudget: 14 * time.Minute, CrashIsViolation: true,
+		QuickBudget: 180 * time.Second, ThoroughBudget: 14 * time.Minute, CrashIsViolation: true,
 		Run: runC13,
 	})
 }
